@@ -54,10 +54,11 @@ Proof. exact query_bucket_is_get. Qed.
 Print Assumptions C12_query_bucket_is_get.
 
 (* the window Bucket.get hands to the storage: start floored, end pushed to the next
-   millisecond (UTC offsets that are whole milliseconds) *)
-Theorem C12_window_rounding : forall d, snd d mod 1000 = 0 ->
+   millisecond of the UTC instant -- for every UTC offset since 49e3288 (the edge is converted
+   to UTC before the rounding; before: UTC offsets that are whole milliseconds) *)
+Theorem C12_window_rounding : forall d,
   round_start d = 1000 * (fst d / 1000) /\ round_end d = 1000 * (fst d / 1000) + 1000.
-Proof. intros d H. split; [now apply round_start_floor|now apply round_end_ceil]. Qed.
+Proof. intros d. split; [apply round_start_floor|apply round_end_ceil]. Qed.
 Print Assumptions C12_window_rounding.
 
 (* a datastore read inside a query hands out objects that unfold to the stored trees *)
